@@ -1,1 +1,100 @@
-// harness
+// Harnesses for src/crc32.rs: C04 (CRC gate) and C09 (chunk independence of the gate).
+#[allow(unused_imports)]
+use crate::verif_kit::*;
+
+fn crc_stub_marker() {}
+
+macro_rules! c04_gate {
+    ($name:ident, $total:expr, $calls:expr, $unwind:expr) => {
+        #[kani::proof]
+        #[kani::unwind($unwind)]
+        #[kani::stub(crc32fast::Hasher::internal_new_specialized, crate::verif_kit::stub_crc_specialized)]
+        fn $name() {
+            const TOTAL: usize = $total;
+            let data: [u8; 4] = kani::any();
+            let sched: u64 = kani::any();
+            let check: u32 = kani::any();
+            let ae2: bool = kani::any();
+            let inner = EnvReader::<4> { data, total: TOTAL, pos: 0, env: Env::short(sched) };
+            let mut rd = Crc32Reader::new(inner, check, ae2);
+            let mut got = [0u8; 4];
+            let mut n = 0usize;
+            let mut eof_ok = false;
+            let mut errored = false;
+            let mut call = 0;
+            while call < $calls {
+                let zero_len: bool = kani::any();
+                let mut b1 = [0u8; 1];
+                if zero_len {
+                    // a zero-length read never errors and never consumes
+                    let before = rd.inner.pos;
+                    match rd.read(&mut b1[..0]) {
+                        Ok(m) => assert_eq!(m, 0),
+                        Err(e) => {
+                            core::mem::forget(e);
+                            assert!(false, "zero-length read errored");
+                        }
+                    }
+                    assert_eq!(rd.inner.pos, before);
+                } else {
+                    match rd.read(&mut b1) {
+                        Ok(0) => {
+                            // end of stream reported successfully
+                            assert!(!errored);
+                            assert_eq!(n, TOTAL);
+                            eof_ok = true;
+                        }
+                        Ok(m) => {
+                            assert_eq!(m, 1);
+                            assert!(!eof_ok, "data after a successful EOF");
+                            assert!(n < 4);
+                            got[n] = b1[0];
+                            n += 1;
+                        }
+                        Err(e) => {
+                            core::mem::forget(e);
+                            errored = true;
+                            // the only error the gate itself raises is at EOF with a bad checksum
+                            assert_eq!(n, TOTAL);
+                            assert!(!ae2);
+                            assert!(ref_crc32(&got, n) != check);
+                        }
+                    }
+                }
+                call += 1;
+            }
+            // bytes are passed through unchanged, in order
+            let mut i = 0;
+            while i < n {
+                assert_eq!(got[i], data[i]);
+                i += 1;
+            }
+            if eof_ok {
+                // THE property: a read that completed returned data whose CRC matches (AE-2 exempt)
+                assert!(ae2 || ref_crc32(&got, n) == check);
+            }
+            kani::cover!(eof_ok && !ae2);
+            kani::cover!(eof_ok && ae2 && ref_crc32(&got, n) != check);
+            kani::cover!(errored);
+            core::mem::forget(rd);
+        }
+    };
+}
+
+/// C04 CRC gate over a pure-environment inner reader (arbitrary bytes, arbitrary short reads):
+/// if a non-empty read returns Ok(0) then every byte was delivered unchanged, no earlier call
+/// failed and (AE-2 or bitwise-reference CRC-32 of the returned bytes == declared checksum);
+/// an error from the gate happens only at EOF, only when not AE-2 and only when the checksum
+/// really differs; zero-length reads never consume or fail; after EOF reads keep returning 0.
+/// Variant: empty stream, 3 caller reads.
+// @h prop=C04,C09 tier=quick t=600 mem=8 name=c04_gate_len0
+c04_gate!(c04_gate_len0, 0, 3, 4);
+/// C04 CRC gate, 1-byte stream, 4 caller reads (1-byte buffers, zero-length reads interleaved).
+// @h prop=C04,C09 tier=quick t=600 mem=8 name=c04_gate_len1
+c04_gate!(c04_gate_len1, 1, 4, 5);
+/// C04 CRC gate, 2-byte stream, 5 caller reads.
+// @h prop=C04,C09 tier=quick t=900 mem=10 name=c04_gate_len2
+c04_gate!(c04_gate_len2, 2, 5, 6);
+/// C04 CRC gate, 3-byte stream, 6 caller reads.
+// @h prop=C04,C09 tier=thorough t=1800 mem=16 name=c04_gate_len3
+c04_gate!(c04_gate_len3, 3, 6, 7);
